@@ -779,6 +779,43 @@ def rule_split_total(ctx: RuleContext, p: Program, g: rx.Grammar, rid: str) -> N
             ctx.check(ok, rid, site, f'split on {seps}', f'the terminal {tname} admits {w!r}, which this _parse_value cannot read as {k} integers '
                       f'(it splits on {" or else ".join(seps)}): a legal lexeme makes parse / from_raw_text / the raw_text setter raise',
                       prs.where, note=f'{tname} included in {k} integer fields separated by {seps}')
+        # a reader built on strptime: the format accepts a narrower language than a terminal written for "four or more digits"
+        for call in [x for x in walk_no_nested(prs.node) if isinstance(x, ast.Call) and norm(x.func).endswith('strptime') and len(x.args) == 2
+                     and isinstance(x.args[1], ast.Constant) and isinstance(x.args[1].value, str)]:
+            src = call.args[0]
+            widen: dict[str, str] = {}
+            while isinstance(src, ast.Call) and isinstance(src.func, ast.Attribute) and src.func.attr == 'replace' and len(src.args) == 2 \
+                    and all(isinstance(a_, ast.Constant) and isinstance(a_.value, str) and len(a_.value) == 1 for a_ in src.args):
+                widen.setdefault(src.args[1].value, src.args[1].value)
+                widen[src.args[1].value] += src.args[0].value              # raw.replace('/', '-'): a '-' of the format is '-' or '/'
+                src = src.func.value
+            if norm(src) != raw:
+                continue
+            table = {'Y': '[0-9]{4}', 'm': '(?:0?[1-9]|1[0-2])', 'd': '(?:0?[1-9]|[12][0-9]|3[01])', 'H': '[0-9]{1,2}', 'M': '[0-9]{1,2}', 'S': '[0-9]{1,2}',
+                     'y': '[0-9]{2}', 'j': '[0-9]{1,3}', '%': '%'}
+            fmt, out, i_ = call.args[1].value, '', 0
+            bad_dir = None
+            while i_ < len(fmt):
+                if fmt[i_] == '%' and i_ + 1 < len(fmt):
+                    if fmt[i_ + 1] not in table:
+                        bad_dir = fmt[i_ + 1]
+                        break
+                    out += table[fmt[i_ + 1]]
+                    i_ += 2
+                else:
+                    out += '[' + ''.join(_esc(ch) for ch in widen.get(fmt[i_], fmt[i_])) + ']'
+                    i_ += 1
+            if bad_dir:
+                raise AnalysisError(f'SPLIT-TOTAL: strptime directive %{bad_dir} not in the frozen table')
+            n += 1
+            site = f'{c.module.name.split(".", 1)[1]}:{c.name}._parse_value'
+            # the terminal admits day / month numbers strptime rejects (00, 13, 99) -- those are not calendar dates either way; compare on
+            # the shape: digits where digits are, so only the WIDTH of each field and the separators are compared
+            shape = out.replace('(?:0?[1-9]|1[0-2])', '[0-9]{1,2}').replace('(?:0?[1-9]|[12][0-9]|3[01])', '[0-9]{1,2}')
+            ok, w = rx.included(g.terminal_nfa(tname), rx.from_regex(shape, re.S))
+            ctx.check(ok, rid, site, f'strptime({fmt!r})', f'the terminal {tname} admits {w!r}, which strptime(.., {fmt!r}) cannot read (the format takes '
+                      f'/{shape}/): a lexeme the lexer delivers as one {tname} makes parse / from_raw_text / the raw_text setter raise ValueError',
+                      prs.where, note=f'{tname} included in the language of {fmt!r}')
     if n < 1:
         raise AnalysisError('SPLIT-TOTAL: no split-and-unpack reader found (Date._parse_value confirmed by hand)')
 
